@@ -350,8 +350,15 @@ def run_func(case):
     elif via == 'wrap':
         target = {'a': {'b': inner}}
         extra = {'spec': 'a.b'}
+    elif via == 'emptykey':
+        # a falsy spec is a spec all the same: '' is the path to the key ''
+        target = {'': inner, 'other': [[99]]}
+        extra = {'spec': ''}
+    elif via == 'emptydict':
+        # spec={} yields {} whatever the target: nothing to flatten / merge
+        extra = {'spec': {}}
     try:
-        items = ref_items(outer, menu, idxs)
+        items = ref_items(outer, menu, idxs) if via != 'emptydict' else []
         if kind == 'flatten':
             levels, initname = arg
             cur = items
@@ -381,7 +388,7 @@ def run_func(case):
         got = ('err', e)
     where = {'call': '%s(%r)' % (kind, arg), 'input': inp, 'spec': via}
     if kind == 'flatten' and arg[0] == 0:
-        if via == 'wrap':
+        if via in ('wrap', 'emptykey', 'emptydict'):
             return R(None, 'ok', nontrivial=False)     # levels=0 with a spec: not stated
         if got[0] != 'ok' or got[1] is not target:
             return R({'expected': 'levels=0 returns the target itself', 'observed': repr(got), **where}, 'ok')
@@ -473,7 +480,7 @@ def gen_func(tier):
         for init in ('dict', 'odict'):
             cases.append(['merge', init, inp])
         # the spec= argument: fetched once, whatever the number of levels
-        for via in ('T', 'wrap'):
+        for via in ('T', 'wrap', 'emptykey', 'emptydict'):
             for levels in (0, 1, 2, 3):
                 cases.append(['flatten', [levels, 'list'], inp, via])
             cases.append(['merge', 'dict', inp, via])
